@@ -99,7 +99,25 @@ def run_api(case: dict, tmp: str) -> dict:
 
             keeper = sqlite3.connect(path, timeout=30.0)  # harness-side: keeps the WAL attached (speed only)
             keeper.execute("SELECT count(*) FROM sqlite_master").fetchall()
-        api = _WorkflowAPI(SimpleNamespace(store=store, start=anoop, stop=anoop),
+        limit = len(plan) + 3
+
+        class GuardStore:
+            """Harness proxy at the store interface: identical behaviour, but a subscription that delivers more
+            events than were ever stored is stopped (otherwise the server-side feeder would spin forever)."""
+
+            def __getattr__(self, name):
+                return getattr(store, name)
+
+            async def subscribe_events(self, run_id, after_sequence=-1):
+                n = 0
+                async for ev in store.subscribe_events(run_id, after_sequence=after_sequence):
+                    n += 1
+                    if n > limit:
+                        obs["runaway"] = True
+                        raise RuntimeError("runaway subscription")
+                    yield ev
+
+        api = _WorkflowAPI(SimpleNamespace(store=GuardStore(), start=anoop, stop=anoop),
                            sse_heartbeat_interval=case.get("hb"))
         await store.update(PersistentHandler(handler_id=HID, workflow_name="wf", run_id=RID,
                                              status="completed" if case["status_terminal"] else "running"))
@@ -263,7 +281,8 @@ def check(case: dict, acc, tmp: str) -> None:
             acc.note("api_ndjson_last_event_id_two_readings")
         if not ok_any:
             mech, what = fails[0]
-            acc.violation({"mech": mech, **base, "cursor_source": "last_event_id" if req["mode"] in ("lei", "lei_and_num") and req["sse"]
+            ccls = "beyond_end" if cursors[0] > S - 1 else ("start" if cursors[0] < 0 else "within_log")
+            acc.violation({"mech": mech, **base, "cursor": ccls, "cursor_source": "last_event_id" if req["mode"] in ("lei", "lei_and_num") and req["sse"]
                            else ("now" if req["mode"] in ("now", "default") or (req["mode"] == "lei" and not req["sse"]) else "after_sequence")},
                           f"[api/{b}] GET /events {mode_sig} cursor={cursors[0]} stored_at_request={S}: {what}", case)
         shape.append([req["mode"], req["sse"], req["internal"], [c["status"] for c in rec["conns"]],
